@@ -139,6 +139,7 @@ class Sched:
         self.interrupt_at = None
         self.interrupt_exc = KeyboardInterrupt
         self.on_main_yield = None  # callback(nyield, info) before each main yield
+        self.actor_fault = None  # (name prefix, n-th yield, exception class)
         self.stopped = False
         # deterministic hang budget (jumps since last yield), see sim
         self.jumps = 0
@@ -338,6 +339,8 @@ class Sched:
             self._post_to_main(StepCap())
         if me.is_main:
             self._main_point(me, info)
+        elif self.actor_fault is not None:
+            self._actor_point(me)
         self._handoff(me)
         if me.is_main:
             self._main_point_after(me)
@@ -360,6 +363,15 @@ class Sched:
             me.pred = None
         if me.is_main:
             self._main_point_after(me)
+
+    def _actor_point(self, me):
+        """Injected exception (e.g. MemoryError) in a non-main actor at its
+        n-th yield point; fires once."""
+        prefix, nth, exc = self.actor_fault
+        if me.name.startswith(prefix) and me.nyield >= nth:
+            self.actor_fault = None
+            self.ev('ACTOR-FAULT', exc.__name__)
+            raise exc('injected in ' + me.name)
 
     def _main_point(self, me, info):
         if self.on_main_yield is not None:
